@@ -17,6 +17,8 @@ func runR3(a *Analyzer, r *Results) {
 	runConsumers(a, r)
 	runBuildersFrozen(a, r)
 	runSPIImplementations(a, r)
+	runStorageSlots(a, r)
+	runSingletons(a, r)
 }
 
 // ---------------------------------------------------------------- L1.start / L1.setview: no live view without an armed timer
@@ -674,5 +676,185 @@ func runSPIImplementations(a *Analyzer, r *Results) {
 		}
 		r.Check("S0.spi", props("C01", "C02", "C03", "C07", "C08"), "the library contains no implementation of the consumer's trust-critical SPI interfaces (KeyManager, BlockUtils, Membership, Communication) and no message log or election scheduler other than the inventoried ones: every Verify/Validate call the other rules count is a call of the consumer's object, not of an interposed cache or filter", "interfaces."+n, a.P.Pos(obj.Pos()), len(bad) == 0,
 			"library type(s) "+strings.Join(bad, ", ")+" implement interfaces."+n+": calls the rules attribute to the consumer's SPI may be answered by library code", "W")
+	}
+}
+
+// ---------------------------------------------------------------- ST.slot: every accessor of the log addresses its own log by its own key
+
+func runStorageSlots(a *Analyzer, r *Results) {
+	const typ = "storage.InMemoryStorage"
+	fieldOf := func(name string) string {
+		switch {
+		case strings.Contains(name, "Preprepare"):
+			return "preprepareStorage"
+		case strings.Contains(name, "Prepare"):
+			return "prepareStorage"
+		case strings.Contains(name, "Commit"):
+			return "commitStorage"
+		case strings.Contains(name, "ViewChange"):
+			return "viewChangeStorage"
+		}
+		return ""
+	}
+	logs := map[string]bool{"preprepareStorage": true, "prepareStorage": true, "commitStorage": true, "viewChangeStorage": true}
+	n := 0
+	for _, f := range a.P.Funcs {
+		if !strings.HasSuffix(funcPkgPath(f), "services/storage") || f.Signature.Recv() == nil || f.Parent() != nil {
+			continue
+		}
+		if typeShort(f.Signature.Recv().Type()) != typ || !token.IsExported(f.Name()) {
+			continue
+		}
+		want := fieldOf(f.Name())
+		if want == "" {
+			continue
+		}
+		// fields touched and values used as lookup keys, through static helpers of the package (parameters bound)
+		touched := map[string]bool{}
+		usedKey := map[ssa.Value]bool{} // parameters of f that end up as a lookup / update key of the log
+		type frame struct {
+			fn   *ssa.Function
+			bind map[*ssa.Parameter]ssa.Value // helper parameter -> value in f
+		}
+		var visit func(fr frame, depth int)
+		rootParam := func(fr frame, v ssa.Value) ssa.Value {
+			for i := 0; i < 6; i++ {
+				switch x := v.(type) {
+				case *ssa.Convert:
+					v = x.X
+					continue
+				case *ssa.ChangeType:
+					v = x.X
+					continue
+				case *ssa.Parameter:
+					if b, ok := fr.bind[x]; ok {
+						return b
+					}
+					return x
+				}
+				break
+			}
+			return v
+		}
+		visit = func(fr frame, depth int) {
+			if depth > 4 {
+				return
+			}
+			for _, b := range fr.fn.Blocks {
+				for _, in := range b.Instrs {
+					switch x := in.(type) {
+					case *ssa.FieldAddr:
+						if pt, ok := x.X.Type().Underlying().(*types.Pointer); ok && typeShort(pt.Elem()) == typ {
+							if fn := fieldName(x.X.Type(), x.Field); logs[fn] {
+								touched[fn] = true
+							}
+						}
+					case *ssa.Lookup:
+						if _, isMap := x.X.Type().Underlying().(*types.Map); isMap {
+							usedKey[rootParam(fr, x.Index)] = true
+						}
+					case *ssa.MapUpdate:
+						usedKey[rootParam(fr, x.Key)] = true
+					case ssa.CallInstruction:
+						sc := x.Common().StaticCallee()
+						if sc == nil || !a.P.IsLib(sc) || !strings.HasSuffix(funcPkgPath(sc), "services/storage") || sc == fr.fn {
+							continue
+						}
+						nb := map[*ssa.Parameter]ssa.Value{}
+						args := x.Common().Args
+						for i, p := range sc.Params {
+							if i < len(args) {
+								nb[p] = rootParam(fr, args[i])
+							}
+						}
+						visit(frame{sc, nb}, depth+1)
+					}
+				}
+			}
+		}
+		visit(frame{f, map[*ssa.Parameter]ssa.Value{}}, 0)
+		n++
+		var wrong []string
+		for fld := range touched {
+			if fld != want {
+				wrong = append(wrong, fld)
+			}
+		}
+		sort.Strings(wrong)
+		why := ""
+		if len(wrong) > 0 {
+			why = f.Name() + " also reads or writes " + strings.Join(wrong, ", ")
+		} else if !touched[want] {
+			why = f.Name() + " does not touch " + want
+		}
+		for _, p := range f.Params[1:] {
+			switch typeShort(p.Type()) {
+			case "primitives.BlockHeight", "primitives.View", "primitives.BlockHash":
+				if !usedKey[p] && why == "" {
+					why = "parameter " + p.Name() + " of " + f.Name() + " is never used as a key of the log: the result does not depend on it"
+				}
+			}
+		}
+		r.Check("ST.slot", props("C01", "C03", "C09", "C10"), "every accessor of the in-memory message log touches only the log its name says (proposals / PREPAREs / COMMITs / votes are never mixed: a commit quorum is counted on COMMITs) and uses each of its (height, view, hash) parameters as a key of that log", f.Name(), a.P.Pos(f.Pos()), why == "", why, "D")
+	}
+	if n == 0 {
+		r.Undecided = append(r.Undecided, "no accessor of InMemoryStorage found (ST.slot anchor)")
+	}
+}
+
+// ---------------------------------------------------------------- S0.single: the objects the rules treat as one live instance are built once
+
+func runSingletons(a *Analyzer, r *Results) {
+	perNode := []string{"state.State", "state.ViewContexts", "rawmessagesfilter.RawMessageFilter", "leanhelix.WorkerLoop", "leanhelix.MainLoop", "Electiontrigger.TimerBasedElectionTrigger"}
+	// (LeanHelixTerm and its message filter are built on two alternative branches - in / not in the committee - and are not listed)
+	perTerm := []string{"termincommittee.TermInCommittee", "messagesfactory.MessageFactory", "storage.InMemoryStorage"}
+	for _, group := range [][]string{perNode, perTerm} {
+		for _, ts := range group {
+			var allocs []*ssa.Alloc
+			for _, f := range a.P.Funcs {
+				for _, b := range f.Blocks {
+					for _, in := range b.Instrs {
+						if al, ok := in.(*ssa.Alloc); ok && al.Heap {
+							if pt, ok := al.Type().Underlying().(*types.Pointer); ok && typeShort(pt.Elem()) == ts {
+								if _, isStruct := pt.Elem().Underlying().(*types.Struct); isStruct {
+									allocs = append(allocs, al)
+								}
+							}
+						}
+					}
+				}
+			}
+			why := ""
+			pos := "-"
+			if len(allocs) != 1 {
+				why = fmtf("%d allocation sites of %s (expected one constructor)", len(allocs), ts)
+			} else {
+				ctor := allocs[0].Parent()
+				pos = a.P.InstrPos(allocs[0])
+				if a.Loops(ctor).Innermost(allocs[0].Block()) != nil {
+					why = ts + " is allocated in a loop"
+				}
+				nSites := 0
+				for _, g := range a.P.Funcs {
+					for _, b := range g.Blocks {
+						for _, in := range b.Instrs {
+							if ci, ok := in.(ssa.CallInstruction); ok && ci.Common().StaticCallee() == ctor {
+								nSites++
+								if a.Loops(g).Innermost(b) != nil && why == "" {
+									why = shortName(ctor) + " is called in a loop in " + shortName(g)
+								}
+							}
+						}
+					}
+				}
+				if ts == "leanhelix.MainLoop" && nSites == 0 {
+					nSites = 1 // the root object: built by the consumer
+				}
+				if nSites != 1 && why == "" {
+					why = fmtf("%s is called at %d sites: several %s objects can be live, the components no longer share one (the rules assume a single instance)", shortName(ctor), nSites, ts)
+				}
+			}
+			r.Check("S0.single", props("C13", "C17", "C15", "C10"), "each component the library wires together (state, context registry, height filter, loops, election trigger; per term: term, filter, factory, log) is allocated by one constructor that is called at exactly one site, outside any loop: all parts of a node read and write the same state object", ts, pos, why == "", why, "W")
+		}
 	}
 }
